@@ -13,7 +13,7 @@ func init() {
 	register("C14", "Decides structural necessary conditions of 'storing issuance chains outside the backend is invisible to readers': "+
 		"(R1) every function of the front end that issues the backend's GetLeavesByRange / GetEntryAndProof (the rpc* wrapper, or the handler itself) is a declared function with one call site and is bound by R2; each handler reaches its RPC exactly once, itself or through the one function it calls that issues it; "+
 		"(R2) a function that issues the RPC returns success only if FixLogLeaf returned nil for every leaf of the reply (the loop that fixes the leaves covers Leaves[0..len) and stands between the reply and every success return; a single leaf is skipped only when absent), its failure is a 500; "+
-		"(R3) FixLogLeaf: every error of the chain lookup, of its ASN.1 decoding (incl. trailing bytes) and of re-encoding is returned; leaf.ExtraData is stored only on all-success paths with the re-encoded full structure; a hash-form layout with a non-empty hash always goes through the lookup (the lookup is skipped only for an empty hash); full-chain layouts return nil without touching the leaf; no layout matched ⇒ error; "+
+		"(R3) FixLogLeaf: every error of the chain lookup, of its ASN.1 decoding (incl. trailing bytes) and of re-encoding is returned; leaf.ExtraData is stored only on all-success paths with the re-encoded full structure; a hash-form layout with a non-empty hash always goes through the lookup (the lookup is skipped only for an empty hash); full-chain layouts return nil without touching the leaf; no layout matched ⇒ error; each of the four layouts is taken only on an exact match (extra data that fails to decode as it, or decodes with bytes left over, reaches the next probe without any lookup, decoding, re-encoding, store through the leaf or success) every layout is probed before any verdict when the others do not match, and a rewrite is final (no layout is probed on the re-inflated bytes, nil is returned) — all of these decided on the value each return yields on the path that leads to it, whatever expression or local carries the verdict; "+
 		"(R4) writer and reader use the identical Go types: the writer stores asn1.Marshal(raw[1:]) of []ct.ASN1Cert under its hash and embeds (raw[0], hash); the reader decodes into []ct.ASN1Cert and re-inflates PrecertChainEntry{PreCertificate ← stored, CertificateChain ← chain} / CertificateChain{Entries ← chain} — the types the in-backend mode writes; "+
 		"(R5) add: key = SHA-256(chain), a storage error is returned, the cache is filled only after the storage write succeeded, a cache hit short-cuts only when err == nil and the entry is non-nil; getByHash: cache error or hit is returned as is, storage error is returned, the cache is filled only after a successful storage read; "+
 		"(R6) a chain read from storage is compared with its key (SHA-256) before either use: before it is served and before it is handed to the cache (cache hits are served unchecked); (R7) the four extra-data layouts have the prefix widths FixLogLeaf's discrimination assumes; "+
@@ -130,17 +130,16 @@ func runC14(r *Run) {
 	fix := r.Fn("(*trillian/ctfe.indirectIssuanceChainService).FixLogLeaf")
 	if fix != nil {
 		r.Rule("C14.R3")
-		r.ErrorsGate(fix, "FixLogLeaf:errors", "(*trillian/ctfe.indirectIssuanceChainService).getByHash", 2)
-		r.ErrorsGate(fix, "FixLogLeaf:errors", "asn1.Unmarshal", 2)
-		r.ErrorsGate(fix, "FixLogLeaf:errors", "tls.Marshal", 2)
-		for _, c := range CallsTo(fix, "asn1.Unmarshal") {
-			rest := CallResult(c, 0)
-			if rest == nil {
-				r.Fail("FixLogLeaf:chain-trailing", r.Where(c), "the remainder of asn1.Unmarshal is discarded")
-				continue
-			}
-			r.FailEdge(fix, "FixLogLeaf:"+shortErr(r.D.D(CallArgs(c)[1])), EdgeSpec{Name: "chain-trailing-bytes", Atom: ordAtomR("len("+r.D.D(rest)+")", "0"), Bad: ">", Want: wantErr(false)})
+		// an error of the lookup, of the chain's decoding and of the re-encoding is FixLogLeaf's verdict and
+		// leaves the leaf as it was — decided on the value each return yields on the path that leads to it,
+		// whatever expression carries the verdict (rules_t6c14.go)
+		var leafWrites []ssa.Instruction
+		for _, st := range r.StoresTo(fix, "&(p2.ExtraData)") {
+			leafWrites = append(leafWrites, st)
 		}
+		c14ErrGate(r, fix, "FixLogLeaf:errors", "(*trillian/ctfe.indirectIssuanceChainService).getByHash", 2, leafWrites)
+		c14ErrGate(r, fix, "FixLogLeaf:errors", "asn1.Unmarshal", 2, leafWrites)
+		c14ErrGate(r, fix, "FixLogLeaf:errors", "tls.Marshal", 2, leafWrites)
 		stores := r.StoresTo(fix, "&(p2.ExtraData)")
 		r.Check("FixLogLeaf:extra-data-stores", len(stores) == 2, r.FnPos(fix), fmt.Sprintf("%d stores to leaf.ExtraData (one per hash layout)", len(stores)))
 		for _, st := range stores {
@@ -173,6 +172,11 @@ func runC14(r *Run) {
 					mine = append(mine, c)
 				}
 			}
+			if other := c14OtherLengthTest(r, fix, h); other != "" {
+				// the skip is decided by a comparison of the hash's length with something else than 0
+				r.Fail("FixLogLeaf:"+hashType+":lookup-unless-empty", r.FnPos(fix), "the chain lookup may be skipped only for an empty hash (len == 0), but what decides it is "+other+": a stored hash of another length would be re-inflated to an empty chain without any lookup")
+				continue
+			}
 			r.MustGuardAfter(fix, "FixLogLeaf:"+hashType+":lookup-unless-empty", "ord(0, len("+h+"))", "=,>", mine, "chain lookup")
 			// and with a non-empty hash the store is unreachable without the lookup: from the length test the store is reached only through the lookup block
 			if len(mine) == 1 {
@@ -188,6 +192,10 @@ func runC14(r *Run) {
 		// TLS encoding of a T" — tls.Unmarshal in place, or a predicate helper verified to answer exactly
 		// that (c14Probes); the layout is named by the type decoded into, not by the local that receives it
 		probes := c14Probes(r, fix, "FixLogLeaf")
+		// a layout is taken only on an exact match, and every layout gets its turn (rules_t6c14.go)
+		c14LayoutExact(r, fix, probes, stores)
+		c14LayoutTurn(r, fix, probes)
+		c14RewriteFinal(r, fix, probes, stores)
 		for _, full := range []string{"ct.PrecertChainEntry", "ct.CertificateChain"} {
 			for _, p := range probes {
 				if p.typ != full {
@@ -213,32 +221,9 @@ func runC14(r *Run) {
 				r.Check(k, ok, r.Where(p.call), "an entry stored with its full chain is served unchanged (return nil, no store)")
 			}
 		}
-		// bytes after the stored chain ⇒ error, and the leaf is not rewritten
-		nTrail := 0
-		for _, c := range CallsTo(fix, "asn1.Unmarshal") {
-			errv, rest := CallResult(c, 1), CallResult(c, 0)
-			if errv == nil || rest == nil {
-				r.Fail("FixLogLeaf:stored-chain-trailing-data", r.Where(c), "result of asn1.Unmarshal ignored")
-				continue
-			}
-			nTrail++
-			s := Sigma{"nil?" + r.D.D(errv): "nil", "ord(0, len(" + r.D.D(rest) + "))": "<"}
-			reach := r.D.Walk(fix, s, c.Block(), nil)
-			r.Valuations++
-			ok := true
-			why := ""
-			for _, ret := range reachableReturns(fix, reach) {
-				if !nonNilUnder(ret.Results[0], reach) {
-					ok, why = false, "a return that may be nil is reachable at "+r.Where(ret)
-				}
-			}
-			for _, st := range stores {
-				if reach.Has(st) {
-					ok, why = false, "the leaf is rewritten"
-				}
-			}
-			r.Check("FixLogLeaf:stored-chain-trailing-data", ok, r.Where(c), "bytes after the stored issuance chain are an error and the leaf stays as it is "+why)
-		}
+		// bytes after the stored chain ⇒ error, and the leaf is not rewritten: decided on the value each
+		// return yields on the path that leads to it (rules_t6c14.go)
+		nTrail := c14StoredChainTrailing(r, fix, stores)
 		r.Floor("FixLogLeaf asn1.Unmarshal of stored chains", nTrail, 2)
 		// under all four decodes failing, only the error return is reachable
 		s := Sigma{}
@@ -404,6 +389,7 @@ func runC14(r *Run) {
 		}
 		r.Check("layout:"+w.typ+"."+w.field, ok, "-", fmt.Sprintf("tag %q (expected %q)", got, w.tag))
 	}
+	c14Debug(r)
 }
 
 // c14Who (C14.R1): who talks to the backend for entries.  Facts decided, per entry-serving RPC:
@@ -690,32 +676,4 @@ func c14CoversAll(r *Run, call ssa.CallInstruction, sliceGlob string) (bool, str
 		return false, ": the loop is not entered exactly while counter < len"
 	}
 	return true, ""
-}
-
-// nonNilUnder: v is non-nil whenever it is produced along the edges of the walk
-// (a φ is looked at edge by edge; constructed errors and allocations are non-nil).
-func nonNilUnder(v ssa.Value, reach *Reach) bool {
-	seen := map[ssa.Value]bool{}
-	var f func(v ssa.Value) bool
-	f = func(v ssa.Value) bool {
-		if seen[v] {
-			return true
-		}
-		seen[v] = true
-		if ph, ok := v.(*ssa.Phi); ok {
-			any := false
-			for i, e := range ph.Edges {
-				if reach != nil && !reach.Edges[[2]int{ph.Block().Preds[i].Index, ph.Block().Index}] {
-					continue
-				}
-				any = true
-				if !f(e) {
-					return false
-				}
-			}
-			return any
-		}
-		return errKind(v) == "non" || neverNil(v)
-	}
-	return f(v)
 }
